@@ -12,6 +12,7 @@ import (
 	"sort"
 	"strings"
 	"sync"
+	"sync/atomic"
 	"time"
 )
 
@@ -70,6 +71,9 @@ func MakeSpace(s Spec) Space {
 type workReq struct {
 	Spec Spec `json:"spec"`
 	Path []Op `json:"path"`
+	// Only selects what an expansion request computes: 0 = every successor (default), -1 = just the list of
+	// enabled operations, k > 0 = successor number k-1 alone (used to find the operation that does not return)
+	Only int `json:"only,omitempty"`
 }
 
 type succ struct {
@@ -103,10 +107,12 @@ type workResp struct {
 	OpsRun   int         `json:"ops"`
 	InitKey  string      `json:"initkey,omitempty"`
 	InitViol string      `json:"initviol,omitempty"`
+	OpsList  []Op        `json:"opslist,omitempty"`
+	Hang     []Op        `json:"-"` // set by the coordinator: the history whose last operation does not return
 }
 
 // expandState computes all successors of the state reached by path.
-func expandState(sp Space, path []Op, wantInit bool, noTrace bool) workResp {
+func expandState(sp Space, path []Op, wantInit bool, noTrace bool, only int) workResp {
 	var resp workResp
 	w0, err := sp.Build(path)
 	if err != nil {
@@ -119,6 +125,10 @@ func expandState(sp Space, path []Op, wantInit bool, noTrace bool) workResp {
 		return resp
 	}
 	ops := sp.Ops(w0)
+	if only == -1 {
+		resp.OpsList = ops
+		return resp
+	}
 	parentTxt := ""
 	if noTrace {
 		parentTxt = w0.TraceText()
@@ -135,7 +145,10 @@ func expandState(sp Space, path []Op, wantInit bool, noTrace bool) workResp {
 			}
 		}
 	}
-	for _, op := range ops {
+	for opi, op := range ops {
+		if only > 0 && opi != only-1 {
+			continue
+		}
 		w, err := sp.Build(path)
 		if err != nil {
 			resp.Herr = "rebuild diverged: " + err.Error()
@@ -213,7 +226,7 @@ func WorkerMain() {
 				cur = MakeSpace(req.Spec)
 				curName = req.Spec.Name
 			}
-			resp := expandState(cur, req.Path, req.Init, req.Spec.Has("notrace"))
+			resp := expandState(cur, req.Path, req.Init, req.Spec.Has("notrace"), req.Only)
 			if e := enc.Encode(resp); e != nil {
 				os.Exit(3)
 			}
@@ -253,25 +266,156 @@ func startWorker() (*workerProc, error) {
 	return &workerProc{cmd: cmd, in: in, out: bufio.NewReaderSize(outp, 1<<20)}, nil
 }
 
+// An expansion request normally costs its worker milliseconds of CPU time (seconds for the heaviest oracles).  A
+// request that has consumed hangCPU seconds of CPU time (not wall-clock time: machine load does not count) is
+// treated as "the code under test does not return": the worker is killed and the operation is identified by
+// probing the successors one at a time (probeCPU each).
+var (
+	hangCPU  = envSeconds("VERIF_HANG_CPU", 240)
+	probeCPU = envSeconds("VERIF_PROBE_CPU", 90)
+)
+
+func envSeconds(name string, def float64) float64 {
+	if v := os.Getenv(name); v != "" {
+		var f float64
+		if _, err := fmt.Sscanf(v, "%g", &f); err == nil && f > 0 {
+			return f
+		}
+	}
+	return def
+}
+
+// cpuSeconds is the CPU time (user + system) consumed so far by process pid (0 if it cannot be read).
+func cpuSeconds(pid int) float64 {
+	b, err := os.ReadFile(fmt.Sprintf("/proc/%d/stat", pid))
+	if err != nil {
+		return 0
+	}
+	txt := string(b)
+	k := strings.LastIndex(txt, ")")
+	if k < 0 {
+		return 0
+	}
+	f := strings.Fields(txt[k+1:])
+	if len(f) < 13 {
+		return 0
+	}
+	var ut, stt float64
+	fmt.Sscanf(f[11], "%g", &ut)
+	fmt.Sscanf(f[12], "%g", &stt)
+	return (ut + stt) / 100
+}
+
+var maxExpandCPU struct {
+	sync.Mutex
+	v float64
+}
+
 func (p *workerProc) call(spec Spec, path []Op, init bool) (workResp, error) {
+	resp, hung, err := p.callOnly(spec, path, init, 0, hangCPU)
+	if err == nil && hung {
+		err = errHung
+	}
+	return resp, err
+}
+
+var errHung = fmt.Errorf("expansion did not return")
+
+// callOnly sends one expansion request; hung reports that the worker used more than limit seconds of CPU time on it
+// and was killed (the caller must restart it).
+func (p *workerProc) callOnly(spec Spec, path []Op, init bool, only int, limit float64) (workResp, bool, error) {
 	req := struct {
 		workReq
 		Init bool `json:"init"`
-	}{workReq{spec, path}, init}
+	}{workReq{spec, path, only}, init}
 	b, _ := json.Marshal(req)
 	b = append(b, '\n')
+	pid := p.cmd.Process.Pid
+	cpu0 := cpuSeconds(pid)
 	if _, err := p.in.Write(b); err != nil {
-		return workResp{}, err
+		return workResp{}, false, err
 	}
-	line, err := p.out.ReadBytes('\n')
-	if err != nil {
-		return workResp{}, fmt.Errorf("worker died: %w", err)
+	type rd struct {
+		line []byte
+		err  error
+	}
+	ch := make(chan rd, 1)
+	go func() {
+		line, err := p.out.ReadBytes('\n')
+		ch <- rd{line, err}
+	}()
+	tick := time.NewTicker(3 * time.Second)
+	defer tick.Stop()
+	var r rd
+wait:
+	for {
+		select {
+		case r = <-ch:
+			break wait
+		case <-tick.C:
+			if used := cpuSeconds(pid) - cpu0; used > limit {
+				p.cmd.Process.Kill()
+				<-ch
+				p.in.Close()
+				p.cmd.Wait()
+				return workResp{}, true, nil
+			}
+		}
+	}
+	if used := cpuSeconds(pid) - cpu0; used > 0 {
+		maxExpandCPU.Lock()
+		if used > maxExpandCPU.v {
+			maxExpandCPU.v = used
+		}
+		maxExpandCPU.Unlock()
+	}
+	if r.err != nil {
+		return workResp{}, false, fmt.Errorf("worker died: %w", r.err)
 	}
 	var resp workResp
-	if err := json.Unmarshal(line, &resp); err != nil {
-		return workResp{}, err
+	if err := json.Unmarshal(r.line, &resp); err != nil {
+		return workResp{}, false, err
 	}
-	return resp, nil
+	return resp, false, nil
+}
+
+// restart replaces a killed worker process by a fresh one (same pool slot).
+func (p *workerProc) restart() error {
+	n, err := startWorker()
+	if err != nil {
+		return err
+	}
+	*p = *n
+	return nil
+}
+
+// findHangingOp re-expands the state reached by path one successor at a time and returns the first operation whose
+// execution (or judging) uses more than probeCPU seconds of CPU time.
+func findHangingOp(wp *workerProc, spec Spec, path []Op) (*Op, error) {
+	lst, hung, err := wp.callOnly(spec, path, false, -1, probeCPU)
+	if err != nil {
+		return nil, err
+	}
+	if hung {
+		if e := wp.restart(); e != nil {
+			return nil, e
+		}
+		return nil, nil // rebuilding the state itself does not return
+	}
+	for i := range lst.OpsList {
+		_, hung, err := wp.callOnly(spec, path, false, i+1, probeCPU)
+		if err != nil {
+			return nil, err
+		}
+		if hung {
+			if e := wp.restart(); e != nil {
+				return nil, e
+			}
+			op := lst.OpsList[i]
+			return &op, nil
+		}
+	}
+	return nil, fmt.Errorf("the expansion of [%s] used more than %.0f s of CPU time but each successor alone returns", OpsString(path), hangCPU)
 }
 
 func (p *workerProc) stop() {
@@ -385,6 +529,7 @@ func Explore(pool *Pool, spec Spec, deadline time.Time, maxViol int) (Stats, []F
 	first := true
 	depth := 0
 	var herr error
+	var hangSeen atomic.Bool
 	for len(frontier) > 0 && herr == nil {
 		if spec.Depth > 0 && depth >= spec.Depth {
 			break
@@ -398,7 +543,7 @@ func Explore(pool *Pool, spec Spec, deadline time.Time, maxViol int) (Stats, []F
 		var wg sync.WaitGroup
 		stopped := false
 		for i := range frontier {
-			if !deadline.IsZero() && time.Now().After(deadline) {
+			if !deadline.IsZero() && time.Now().After(deadline) || hangSeen.Load() {
 				stopped = true
 				results = results[:i]
 				break
@@ -408,6 +553,21 @@ func Explore(pool *Pool, spec Spec, deadline time.Time, maxViol int) (Stats, []F
 			go func(i int, wp *workerProc, init bool) {
 				defer wg.Done()
 				resp, err := wp.call(spec, frontier[i].path, init)
+				if err == errHung {
+					hangSeen.Store(true) // no further states of this space are dispatched
+					err = wp.restart()
+					var op *Op
+					if err == nil {
+						op, err = findHangingOp(wp, spec, frontier[i].path)
+					}
+					if err == nil {
+						hp := append([]Op{}, frontier[i].path...)
+						if op != nil {
+							hp = append(hp, *op)
+						}
+						resp = workResp{Hang: hp}
+					}
+				}
 				results[i] = result{frontier[i], resp, err}
 				pool.free <- wp
 			}(i, wp, first && i == 0)
@@ -422,6 +582,16 @@ func Explore(pool *Pool, spec Spec, deadline time.Time, maxViol int) (Stats, []F
 			if r.resp.Herr != "" {
 				herr = fmt.Errorf("harness error at [%s]: %s", OpsString(r.it.path), r.resp.Herr)
 				break
+			}
+			if r.resp.Hang != nil {
+				if len(found) < maxViol {
+					msg := fmt.Sprintf("the last operation of the history (or the reads that judge the state after it) does not return: more than %.0f s of CPU time in one call, where the whole history normally takes milliseconds", probeCPU)
+					if len(r.resp.Hang) == len(r.it.path) {
+						msg = fmt.Sprintf("rebuilding this state (the space's scripted start state followed by the history) does not return: more than %.0f s of CPU time, where it normally takes milliseconds", probeCPU)
+					}
+					found = append(found, Found{Spec: spec, Path: r.resp.Hang, Kind: "hang", Msg: msg})
+				}
+				continue
 			}
 			if r.resp.InitKey != "" {
 				seen[r.resp.InitKey] = true
@@ -480,6 +650,14 @@ func Explore(pool *Pool, spec Spec, deadline time.Time, maxViol int) (Stats, []F
 		if stopped {
 			st.Exhaustive = false
 			st.CapHit = fmt.Sprintf("deadline reached in %s at depth %d (all shallower levels complete)", spec.Name, depth)
+			if hangSeen.Load() {
+				st.CapHit = fmt.Sprintf("stopped in %s at depth %d after an operation that does not return", spec.Name, depth)
+			}
+			break
+		}
+		if hangSeen.Load() {
+			st.Exhaustive = false
+			st.CapHit = fmt.Sprintf("stopped in %s at depth %d after an operation that does not return", spec.Name, depth)
 			break
 		}
 		if len(found) >= maxViol {
